@@ -255,6 +255,27 @@ func main() {
 		})
 	}
 
+	// inferFromRef consults a `visited` set before expanding the $ref
+	schemaRefGuard := false
+	if fd := root.fn("inferFromRef"); fd != nil {
+		ast.Inspect(fd.Body, func(n ast.Node) bool {
+			if ifs, ok := n.(*ast.IfStmt); ok && ifs.Init != nil {
+				if as, ok := ifs.Init.(*ast.AssignStmt); ok && len(as.Rhs) == 1 {
+					if ix, ok := as.Rhs[0].(*ast.IndexExpr); ok {
+						if sel, ok := ix.X.(*ast.SelectorExpr); ok && sel.Sel.Name == "visited" {
+							for _, st := range ifs.Body.List {
+								if _, ok := st.(*ast.ReturnStmt); ok {
+									schemaRefGuard = true
+								}
+							}
+						}
+					}
+				}
+			}
+			return true
+		})
+	}
+
 	var b bytes.Buffer
 	b.WriteString("import Verif.Model.Facts\n")
 	b.WriteString("-- GENERATED by /verif/harness/cmd/extract from /repo's working tree; do not edit.\n\n")
@@ -270,6 +291,7 @@ func main() {
 	fmt.Fprintf(&b, "  mixinMethods := %s\n", leanStrList(mixinMethods))
 	fmt.Fprintf(&b, "  mixinSkipsEmptyIDs := %v\n", mixinSkipsEmptyIDs)
 	fmt.Fprintf(&b, "  mixinExtDocsGuard := %v\n", mixinExtDocsGuard)
+	fmt.Fprintf(&b, "  schemaRefGuard := %v\n", schemaRefGuard)
 	fmt.Fprintf(&b, "  paramsNilSafe := %v\n", paramsNilSafe)
 	fmt.Fprintf(&b, "  paramsForMethods := %s\n", leanStrList(paramsForMethods))
 	_ = sort.Strings
